@@ -9,7 +9,7 @@ VERSIONS = ["1.4", "1.5", "2.0", "2.1", "2.2"]
 
 def jobs(tier, seed):
     q = tier == "quick"
-    out = [{"seed": seed, "i": i, "streams": 3 if q else 40, "exhaustive_upto": 200 if q else 700} for i in range(32 if q else 96)]
+    out = [{"seed": seed, "i": i, "streams": 3 if q else 12, "exhaustive_upto": 200 if q else 400} for i in range(32 if q else 64)]
     out += [{"kind": "real-threads", "seed": seed, "i": i, "streams": 4 if q else 30} for i in range(8 if q else 32)]
     return out
 
